@@ -1,0 +1,16 @@
+// Copyright The gittuf Authors
+// SPDX-License-Identifier: Apache-2.0
+
+//go:build verif
+
+// gvc contracts (comment-only, read under the "verif" build tag).
+
+package v01
+
+//@ spec approvalNamesChange(env *sslibdsse.Envelope, ref string, from string, to string) bool
+//@ # approvalNamesChange is, by definition, "ValidatePullRequestApproval accepted env for (ref, from, to)"
+//@ func ValidatePullRequestApproval -> (err)
+//@   trusted
+//@   pure
+//@   requires env != nil
+//@   ensures err == nil ==> approvalNamesChange(env, targetRef, fromRevisionID, targetTreeID)
